@@ -257,6 +257,10 @@ fn apply_insert(cands: &[Model], cfg: &CacheCfg, key: u8, serial: u32, now: u64)
 
 struct C10 {
     cfg: CacheCfg,
+    /// after every history (also those merged into a known state) look every key up once
+    /// more, in lock-step with the reference cache: hidden state carried across a merge
+    /// (a stale queue entry, a wrong use count) then surfaces. Thorough tier.
+    probe: bool,
 }
 
 impl C10 {
@@ -315,7 +319,19 @@ impl SeqScenario for C10 {
         let mut outcome = String::new();
         let mut witnesses = vec![];
         let mut req_id = 0u32;
-        for (step, &oi) in hist.iter().enumerate() {
+        let probe_ops: Vec<usize> = if self.probe { alpha.iter().enumerate().filter(|(_, o)| matches!(o, Op::Get { ok: true, svc: 0, .. })).map(|(i, _)| i).collect() } else { vec![] };
+        let all: Vec<usize> = hist.iter().copied().chain(probe_ops).collect();
+        let mut key_at_end: Option<String> = None;
+        let canon_of = |cands: &Vec<Model>, now: u64| -> String {
+            let mut cs: Vec<String> = cands.iter().map(|c| c.canon(now, cfg.ttl)).collect();
+            cs.sort();
+            cs.dedup();
+            format!("{cs:?}")
+        };
+        if hist.is_empty() {
+            key_at_end = Some(canon_of(&cands, w.now_ms()));
+        }
+        for (step, &oi) in all.iter().enumerate() {
             let op = &alpha[oi];
             let last = step + 1 == hist.len();
             match op {
@@ -531,13 +547,13 @@ impl SeqScenario for C10 {
                     cands = next;
                 }
             }
+            if last {
+                key_at_end = Some(canon_of(&cands, w.now_ms()));
+            }
         }
-        let now = w.now_ms();
-        let mut cs: Vec<String> = cands.iter().map(|c| c.canon(now, cfg.ttl)).collect();
-        cs.sort();
-        cs.dedup();
+        let key = key_at_end.unwrap_or_else(|| canon_of(&cands, w.now_ms()));
         let _ = (InnerErr { id: 0, kind: 0 }, CacheError::<InnerErr>::Inner);
-        SeqOut { key: format!("{cs:?}"), viols, outcome, witnesses, log, enabled: None }
+        SeqOut { key, viols, outcome, witnesses, log, enabled: None }
     }
 }
 
@@ -800,8 +816,8 @@ fn main() {
             c.extend(conc_configs(Tier::Thorough));
             svcx::replay_main("C10", &p, c);
         }
-        let mut c: Vec<C10> = grid(Tier::Quick).into_iter().map(|cfg| C10 { cfg }).collect();
-        c.extend(grid(Tier::Thorough).into_iter().map(|cfg| C10 { cfg }));
+        let mut c: Vec<C10> = grid(Tier::Thorough).into_iter().map(|cfg| C10 { cfg, probe: true }).collect();
+        c.extend(grid(Tier::Quick).into_iter().map(|cfg| C10 { cfg, probe: false }));
         seq::replay_seq_main("C10", &p, c);
     }
     let tier = cli.tier;
@@ -814,7 +830,7 @@ fn main() {
         rep.require_witness(w);
     }
     let depth = tier.pick(8, 10);
-    let scns: Vec<C10> = grid(tier).into_iter().map(|cfg| C10 { cfg }).collect();
+    let scns: Vec<C10> = grid(tier).into_iter().map(|cfg| C10 { cfg, probe: tier == Tier::Thorough }).collect();
     rep.bounds = json!({"depth": depth, "configurations": scns.len(), "keys": 3});
     seq::par_configs(&scns, &mut rep, |s, r| {
         seq::explore_seq(s, depth, true, r);
